@@ -30,7 +30,7 @@ import (
 // column of the table; D=0: only the columns its rows mention; E=1: last batch together with io.EOF) and
 // fetched until EOF exactly as QueryProcessor.GetFullResult does.
 // Out: "ok n=<rows> <row>;… [st=<processor state, single command>]" (rows in order, columns sorted, nulls dropped,
-// "-" = row without values) | "panic" | "err"
+// "-" = row without values) | "panic" | "err"  (the model has no panic: a panic is a mismatch AND a PropFail)
 // PropFail (independent of the model):
 //   - output under P ≠ output under the single-batch delivery  → pipe-chunking/<cmd>/<shape>
 //   - single-batch output ≠ the documented meaning (reference evaluator below) → pipe-semantics/<cmd>/<shape>
